@@ -9,6 +9,7 @@
   `la : message → position → current mode → mode` in every theorem.
 -/
 import Gzx.Proofs.DMTotalAB
+import Gzx.Proofs.DMMidstream
 namespace Gzx.Properties.C02
 open Gzx Gzx.DMHighLevel
 
@@ -129,6 +130,38 @@ theorem dm_encoder_invariant_base256 (T : Tables) (syms : List SymbolInfo) (la :
   obtain ⟨a', ht, _, _, _, hp, _, _, hres⟩ := b256_step_inv hbytes hL hle hmore hnew h
   exact ⟨a', ht, hp, hres⟩
 
+/-- `c40_segment_inv` / `text_segment_inv`: if the decoder is in ASCII state after `cw`, then after
+    `cw ++ [latch] ++ triplets ++ [254]`, where the triplets pack the values of whole characters `chars`
+    (any bytes; the value count a multiple of three), it has appended exactly `chars` and is in ASCII state
+    again — whatever codewords follow, including none (the "one byte left" rule lets a final 254 through). -/
+theorem c40_segment_inv (text : Bool) (cw : List Nat) (a : Acc) (h : DecodesTo refTables cw a)
+    (chars : List Nat) (hb : ∀ c ∈ chars, c < 256) (k : Nat) (hl : (cVals text chars).length = 3 * k) :
+    DecodesTo refTables (cw ++ [if text then 239 else 230] ++ (writeTriplets (cVals text chars)).1 ++ [254])
+      (a.pushAll chars).endSeg :=
+  decodesTo_c40 text h chars hb k hl
+
+/-- `x12_segment_inv`: the same for an X12 segment (latch 238) of complete triplets of X12 values. -/
+theorem x12_segment_inv (T : Tables) (cw : List Nat) (a : Acc) (h : DecodesTo T cw a) (hp : a.pend = 0)
+    (k : Nat) (vals chars : List Nat) (hl : vals.length = 3 * k) (hv : ∀ v ∈ vals, v < 40)
+    (hc : x12Chars vals = .ok chars) (hch : ∀ c ∈ chars, c < 128) :
+    DecodesTo T (cw ++ [238] ++ (writeTriplets vals).1 ++ [254]) (a.pushAll chars) :=
+  decodesTo_x12 h hp k vals chars hl hv hc hch
+
+example : (writeTriplets (cVals false [65, 66, 67])).1 = [89, 233] := by decide      -- "ABC" in C40
+example : decodeText refTables [230, 89, 233, 254, 66] = .ok [65, 66, 67, 65] := by decide
+
+/-- `dm_encoder_invariant` (C40 / Text, leaving in mid-stream): when the C40 or Text encoder stops with
+    complete triplets buffered and characters still to come, `c40HandleEOD` writes the triplets and the unlatch
+    and the invariant holds again, at the same position.  (The end-of-message branches of `c40HandleEOD` and
+    the backtracking are NOT covered by a theorem.) -/
+theorem dm_encoder_invariant_c40_midstream (syms : List SymbolInfo) (text : Bool) (c c' : Ctx) (a : Acc)
+    (chars buf : List Nat) (hB : Buffered text c a chars buf) (hb : ∀ x ∈ chars, x < 256)
+    (k : Nat) (h3 : buf.length = 3 * k) (hmore : c.hasMore = true)
+    (h : c40HandleEOD syms c buf = .ok c') :
+    Inv refTables c' (a.pushAll chars).endSeg ∧ c'.pos = c.pos :=
+  let ⟨hI, hp, _, _⟩ := c40HandleEOD_midstream hB hb k h3 hmore h
+  ⟨hI, hp⟩
+
 /-! ## round trip -/
 
 /-
@@ -142,10 +175,13 @@ theorem dm_encoder_invariant_base256 (T : Tables) (syms : List SymbolInfo) (la :
   characters, upper shift for 128..255, macro 05/06 header + trailer, Base-256 runs with 1- and 2-byte length
   fields and the exact-fill case (length 0), any number of switches between the two modes, the final
   `UpdateSymbolInfo` and the 129 / 253-state padding — for every symbol table and every shape/min/max hint.
-  Missing cases: the steps of the C40, Text, X12 and EDIFACT encoders (latch, triplets / quadruples, their
-  end-of-data handlers `c40HandleEOD` + backtracking, `x12HandleEOD`, `edifactHandleEOD`) are covered by the
-  codec lemmas above at the character / group level only; for whole messages these four modes rest on the
-  correspondence suites (exact codewords model vs. code) and on the oracle on the real code.
+  Missing cases: whole calls of the C40, Text, X12 and EDIFACT encoders.  For these modes the theorems above
+  cover the characters and groups (codec lemmas), whole decoder segments of complete triplets closed by an
+  unlatch (`c40_segment_inv`, `x12_segment_inv`) and the mid-stream branch of `c40HandleEOD`; NOT covered are
+  the encoder loops with the look-ahead, the end-of-message branches of `c40HandleEOD` (pad value / single
+  value left / no unlatch at exact fit), the backtracking, `x12HandleEOD`'s rewind, `edifactHandleEOD`
+  (rest-in-ASCII, no-unlatch shortcut).  For whole messages these four modes rest on the correspondence
+  suites (exact codewords model vs. code) and on the oracle on the real code.
 -/
 
 /-- `dm_roundtrip`, ASCII + Base-256 part. -/
